@@ -140,3 +140,8 @@ From VModel Require Import BannerM.
 From VProofs Require Import TieC16.
 Theorem c16_tie_banner_products : forall v, sw_parse_str (String.append "tinyssh_" v) = Some (mkS None product_TinySSH v None) /\ sw_parse_str (String.append "PuTTY_Release_" v) = Some (mkS None product_PuTTY v None).
 Proof. exact tie_banner_products. Qed.
+(* the printable filter and the replacement character are those of the current utils.py (T1c translation) *)
+Theorem c16_tie_printable : forall z, printable z = src_is_print_ascii_filter z /\ printable z = src_to_print_ascii_filter z.
+Proof. exact tie_printable. Qed.
+Theorem c16_tie_replacement : forall z, printable z = false -> pchar z = ascii_of_nat (Z.to_nat src_to_ascii_replacement).
+Proof. exact tie_replacement. Qed.
